@@ -150,6 +150,55 @@ pub fn run(out: &mut Out, seed: u64, tier: &str) {
             }
         }
     }
+    // large converged starts: the criterion is a mean over atoms, so in a large system it is met while one or two atoms still carry
+    // a sizeable force. One slightly stretched diatomic inside a wide lattice of 150-650 noble-gas atoms, the stretch found by
+    // bisection so that sqrt(mean |g_i|) lands at 0.08-0.095: such a start must come back bit for bit
+    let mut n_large_conv = 0usize;
+    let sizes: Vec<(usize, usize, usize)> = if tier == "thorough" { vec![(5, 5, 6), (7, 7, 6), (9, 9, 8), (4, 4, 3)] } else { vec![(7, 7, 6), (4, 4, 3)] };
+    for (si, (na, nb, nc)) in sizes.iter().enumerate() {
+        for (zi, zj) in [(1usize, 1usize), (6, 8), (17, 17)] {
+            if tier != "thorough" && (si + zi) % 2 == 1 { continue; }
+            for kind in ["uff", "rb"] {
+                let r0 = radius(zi) + radius(zj);
+                let lattice = |r: f64| -> Mol {
+                    let mut m = Mol { name: format!("stretched-{}-{}-in-lattice-{}", zi, zj, na * nb * nc), zs: vec![zi, zj], xs: vec![[-30.0, -30.1, -29.9], [-30.0 + r, -30.1, -29.9]] };
+                    for a in 0..*na { for b in 0..*nb { for c in 0..*nc { m.zs.push(2); m.xs.push([a as f64 * 60.0, b as f64 * 60.0, c as f64 * 60.0]); } } }
+                    m
+                };
+                // (measure, force along the bond on the second atom) under a fresh force field
+                let probe = |m: &Mol| -> Option<(f64, f64)> {
+                    let mol = catch(|| m.build())?; let mut ff = FF::build(kind, &mol)?;
+                    let g = ff.gradient(&mol.coordinates);
+                    Some(((g.chunks(3).map(|c| (c[0] * c[0] + c[1] * c[1] + c[2] * c[2]).sqrt()).sum::<f64>() / m.n() as f64).sqrt(), g[3]))
+                };
+                let measure = |m: &Mol| -> Option<f64> { probe(m).map(|v| v.0) };
+                // the bond length at which the pair is at rest (the gradient along the bond changes sign), then the stretch beyond it
+                // at which the measure reaches about 0.09 (monotone on the stretched side of the minimum)
+                let (mut a0, mut a1) = (0.8 * r0, 1.25 * r0);
+                match (probe(&lattice(a0)), probe(&lattice(a1))) { (Some(p), Some(q)) if p.1 < 0.0 && q.1 > 0.0 => {}, _ => continue }
+                for _ in 0..60 { let mid = 0.5 * (a0 + a1); match probe(&lattice(mid)) { Some(v) if v.1 > 0.0 => a1 = mid, Some(_) => a0 = mid, None => break } }
+                let req = a1;
+                let target = rng.range(0.08, 0.095);
+                let (mut lo, mut hi) = (req, req + 0.1);
+                match measure(&lattice(hi)) { Some(v) if v > target => {}, _ => continue }
+                if !(measure(&lattice(lo)).map(|v| v < target).unwrap_or(false)) { continue; }
+                for _ in 0..40 { let mid = 0.5 * (lo + hi); match measure(&lattice(mid)) { Some(v) if v > target => hi = mid, Some(_) => lo = mid, None => break } }
+                let start = lattice(lo);
+                let ms = match measure(&start) { Some(v) => v, None => continue };
+                if !(ms < 0.1) || !(ms > 0.05) { continue; }
+                let mut mol = match catch(|| start.build()) { Some(x) => x, None => continue };
+                let mut ff = match FF::build(kind, &mol) { Some(f) => f, None => continue };
+                let e0 = ff.energy(&mol.coordinates);
+                if !in_domain(&start, e0) { continue; }
+                let gmax = { let g = ff.gradient(&mol.coordinates); g.chunks(3).map(|c| (c[0] * c[0] + c[1] * c[1] + c[2] * c[2]).sqrt()).fold(0.0f64, f64::max) };
+                if catch(|| mol.optimise(ff.as_dyn())).is_none() { continue; }
+                n_large_conv += 1;
+                let same = mol.coordinates.iter().zip(start.xs.iter()).all(|(p, q)| p.x.to_bits() == q[0].to_bits() && p.y.to_bits() == q[1].to_bits() && p.z.to_bits() == q[2].to_bits());
+                if !same { out.oracle_fail(&format!("{}: a {}-atom start that already satisfies the convergence criterion (sqrt of the mean atomic gradient norm {:.4} < 0.1; largest atomic gradient norm {:.3}) was not returned unchanged", kind, start.n(), ms, gmax), &format!("{} optimise of\n{}", kind, start.xyz_text())); }
+            }
+        }
+    }
+    out.stat("large_converged_starts", n_large_conv);
     out.stat("optimisations", n);
     out.stat("inside_domain", n_dom);
     out.stat("moved", moved_n);
